@@ -531,6 +531,7 @@ var propFalsifiers = map[string]func(w *World, fn *ssa.Function, r vcResult) *Co
 	"C09": pep440Falsifier,
 	"C02": rangeFalsifier,
 	"C20": orderFalsifier,
+	"C14": apkFalsifier,
 }
 
 const rangeTestTmpl = `package %s
